@@ -440,6 +440,26 @@ def _scalar_param(u: Unit, name: str) -> bool:
     return False
 
 
+_MUTATOR_PREFIXES = ("set_", "add_", "_set", "_add", "append", "update", "_update", "initialize",
+                     "_init", "__init__", "compute", "_compute", "_create", "_read", "close", "remove",
+                     "resize", "_store", "_write", "insert", "_append")
+
+
+def _mutator(u: Unit) -> bool:
+    """a method whose job is to change its object (constructor, setter / adder, stepper): only
+    there is `x = self._x; x[k] = v` read like the direct spelling.  A query that writes
+    into stored state through a local (`c = self._c; np.nan_to_num(c, copy=False)`) is judged."""
+    name = u.qual.split(":")[-1].split(".")[-1]
+    return name.startswith(_MUTATOR_PREFIXES)
+
+
+def _own_attribute(v: Optional[ast.AST]) -> bool:
+    """self.<attr> or self.<attr>[...]: state of the object the method belongs to"""
+    if isinstance(v, ast.Subscript):
+        v = v.value
+    return isinstance(v, ast.Attribute) and isinstance(v.value, ast.Name) and v.value.id == "self"
+
+
 def inplace_updates(prog: Program, chk: Check, rule: str, modules: Optional[Set[str]] = None,
                     floor: int = 15) -> None:
     own = Ownership(prog)
@@ -523,6 +543,13 @@ def inplace_updates(prog: Program, chk: Check, rule: str, modules: Optional[Set[
                 continue                    # caller's object: C20 A5
             if not ds and u.parent is not None:
                 continue                    # the closure's own state (container of the enclosing call)
+            if _mutator(u) and ds and all((_own_attribute(d.value) and not d.sel) or
+                          (len(d.sel) == 1 and d.sel[0][0] == "iter"
+                           and isinstance(d.value, (ast.Tuple, ast.List)) and d.value.elts
+                           and all(_own_attribute(e) for e in d.value.elts)) for d in ds):
+                # `table = self._table; table[k] = v` is `self._table[k] = v`: the object's own
+                # attribute written through a local name, like the direct spelling not judged here
+                continue
             m += 1
             # `x[i] op= v` updates the element x[i] in place when x is a list
             judged = node.target if isinstance(node, ast.AugAssign) and \
